@@ -183,8 +183,15 @@ pub trait CharacterDataMut: CharacterData + NodeMut {
     fn delete_data(&self, offset: usize, count: usize) -> error::Result<()>;
 
     fn replace_data(&self, offset: usize, count: usize, arg: &str) -> error::Result<()> {
+        let removed = self.substring_data(offset, count)?;
         self.delete_data(offset, count)?;
-        self.insert_data(offset, arg)
+        if let Err(e) = self.insert_data(offset, arg) {
+            // put the deleted characters back: a failed call changes nothing.
+            self.insert_data(offset, removed.as_str())?;
+            return Err(e);
+        }
+
+        Ok(())
     }
 }
 
